@@ -21,15 +21,19 @@ ASSUMPTIONS = [
     "results, exit content and exceptions are still judged",
     "objects bound to the same file in different buffered states are not generated (documented as unsupported)",
 ]
-STRATA = ["default_cap", "small_cap"]
-PER = {"quick": {"default_cap": 500, "small_cap": 150}, "thorough": {"default_cap": 4000, "small_cap": 800}}
+STRATA = ["default_cap", "small_cap", "adopted_nodes"]
+PER = {"quick": {"default_cap": 500, "small_cap": 150, "adopted_nodes": 1},
+       "thorough": {"default_cap": 4000, "small_cap": 800, "adopted_nodes": 1}}
 STEPS = {"quick": 35, "thorough": 60}
 
 
 def plan(tier, seed):
     combos = [(c, {"wc": False, "threading": True}) for c in catalog.BUFFERED_CLASSES]
     combos += [(c, {"wc": True, "threading": False}) for c in catalog.BUFFERED_CLASSES]
-    return common.plan_grid(tier, seed, combos, PER, STRATA, pieces=4)
+    specs = common.plan_grid(tier, seed, combos, PER, STRATA, pieces=4)
+    # the D20 witness exists for the shared-memory classes only, once per class
+    return [s for s in specs if s["stratum"] != "adopted_nodes"
+            or (catalog.info(s["cls"]).strategy == "memory" and s["cfg"]["threading"] and s["start"] == 0)]
 
 
 def make_case(spec, i, tag="C05", nres=None, p_read=0.35):
@@ -47,11 +51,21 @@ def make_case(spec, i, tag="C05", nres=None, p_read=0.35):
     steps = []
     n = STEPS[spec["tier"]]
     depth = 0
+    adopters = set()
+    pending = []
+    if spec["stratum"] == "adopted_nodes":
+        return _witness_d20(info, spec)
     while len(steps) < n:
         x = r.random()
         if x < 0.14 and depth < 4:
             if r.random() < 0.5:
-                st = {"enter": "obj", "h": r.randrange(nres)}
+                # shared-memory strategy: an object that adopted another object's data (known finding D20)
+                # does not get a per-object context of its own here; see the directed witness below
+                live = [h.id for h in ms.handles.values() if h.is_root and h.attached
+                        and not (info.strategy == "memory" and h.id in adopters)]
+                if not live:
+                    continue
+                st = {"enter": "obj", "h": r.choice(live)}
             else:
                 cap = None
                 if small and r.random() < 0.8:
@@ -61,11 +75,37 @@ def make_case(spec, i, tag="C05", nres=None, p_read=0.35):
             ms.enter(st)
             depth += 1
             continue
-        if x < 0.26 and depth > 0:
+        no_handles = not any(h.attached for h in ms.handles.values())
+        if (x < 0.26 or no_handles) and depth > 0:
             steps.append({"exit": 1})
             ms.exit()
             depth -= 1
+            if depth == 0:
+                for res_i in pending:
+                    steps.append({"new_root": next_id, "res": res_i})
+                    ms.add_root(next_id, res_i)
+                    adopters.add(next_id)
+                    next_id += 1
+                pending = []
             continue
+        if x < 0.29 and ms.backend_count > 0:
+            # drop an object that was used inside the backend-wide context (no own context active) and
+            # continue through a new object on the same file: its buffered writes must still be flushed
+            cands = [h for h in ms.handles.values() if h.is_root and h.attached and ms.obj_count.get(h.id, 0) == 0]
+            if cands:
+                H = r.choice(cands)
+                steps.append({"drop": H.id})
+                for hh in ms.handles.values():
+                    if hh.root == H.id:
+                        hh.attached = False
+                if r.random() < 0.5:
+                    steps.append({"new_root": next_id, "res": H.res})
+                    ms.add_root(next_id, H.res)
+                    adopters.add(next_id)
+                    next_id += 1
+                else:
+                    pending.append(H.res)  # nobody touches the file again before the contexts exit
+                continue
         if x < 0.32:
             attached = [h for h in ms.handles.values() if h.attached]
             H = r.choice(attached)
@@ -80,11 +120,22 @@ def make_case(spec, i, tag="C05", nres=None, p_read=0.35):
                     steps.append({"retain": next_id, "h": H.id, "path": sub})
                     next_id += 1
             continue
-        steps.extend(gen.gen_program(g, ms, 1, p_read=p_read, depth=2))
+        # D20 (shared-memory strategy): an object that adopted another object's data is only written through
+        # while the backend-wide context in which it adopted the data is still active; afterwards it is read only
+        hs = [h.id for h in ms.handles.values() if h.attached]
+        if not hs:
+            break
+        hsel = r.choice(hs)
+        ro = info.strategy == "memory" and ms.handles[hsel].root in adopters and ms.backend_count == 0
+        steps.extend(gen.gen_program(g, ms, 1, p_read=1.0 if ro else p_read, depth=2, handles=[hsel]))
     while depth > 0:
         steps.append({"exit": 1})
         ms.exit()
         depth -= 1
+    for res_i in pending:
+        steps.append({"new_root": next_id, "res": res_i})
+        ms.add_root(next_id, res_i)
+        next_id += 1
     # a few reads after everything has been flushed
     steps.extend(gen.gen_program(g, ms, 3, p_read=1.0, depth=2))
     case = {"cls": info.name, "cfg": spec["cfg"], "res": inits, "roots": roots, "steps": steps,
@@ -93,6 +144,24 @@ def make_case(spec, i, tag="C05", nres=None, p_read=0.35):
     if small:
         case["small_capacity"] = True
     return case
+
+
+def _witness_d20(info, spec):
+    """Directed witness of known finding D20 (shared-memory strategy only)."""
+    if info.kind == "dict":
+        init = {"c": {"x": 1}}
+        w0 = {"op": "setitem", "h": 0, "path": [], "args": ["k", 1]}
+        w1 = {"op": "setitem", "h": 1, "path": ["c"], "args": ["y", 2]}
+    else:
+        init = [[1]]
+        w0 = {"op": "append", "h": 0, "path": [], "args": [1]}
+        w1 = {"op": "append", "h": 1, "path": [0], "args": [2]}
+    steps = [{"enter": "backend", "cap": None}, w0, {"drop": 0}, {"new_root": 1, "res": 0},
+             {"op": "len", "h": 1, "path": [], "args": []}, {"exit": 1},
+             {"enter": "obj", "h": 1}, w1, {"exit": 1}]
+    return {"cls": info.name, "cfg": spec["cfg"], "res": [init], "roots": [[0, 0]], "steps": steps,
+            "stratum": "adopted_nodes",
+            "oracle": {"results": True, "resource_strict": True, "buffer_defers": True}}
 
 
 def _nontrivial(case, sess):
